@@ -124,7 +124,43 @@ func ruleC13R2(c *Ctx) {
 		broken("C13.R2: Transform no longer calls parseRFC3339Timestamp")
 	}
 	errV := resultOf(parse.Value(), 1)
+	// a memo of the parsed time: a field of the transform whose every store is result #0 of the parser under err == nil.
+	// Whether the memo is keyed by the whole input is the business of C15.R6 (cross-record state).
+	memoOfParse := func(v ssa.Value) (string, bool) {
+		u, ok := strip(v).(*ssa.UnOp)
+		if !ok || u.Op != token.MUL {
+			return "", false
+		}
+		fa, ok := strip(u.X).(*ssa.FieldAddr)
+		if !ok || typeName(fa.X.Type()) != "transform/tparsetime.parseTimeTransform" {
+			return "", false
+		}
+		name := fieldName(fa.X.Type(), fa.Field)
+		n := 0
+		for _, g := range c.P.universe {
+			for _, ms := range storesToField(g, name) {
+				n++
+				if g != fn || !sameValue(ms.Val, resultOf(parse.Value(), 0)) {
+					return "", false
+				}
+				via := false
+				for b, si := range nilEdges(errV, true) {
+					if c.onlyViaEdge(fn, ms, b, si) {
+						via = true
+					}
+				}
+				if !via {
+					return "", false
+				}
+			}
+		}
+		return name, n > 0
+	}
 	for _, st := range stores {
+		if name, ok := memoOfParse(st.Val); ok {
+			c.ok("C13.R2", fn, "record.Timestamp is assigned from a memo of the parsed time", st.Pos(), "the field "+name+" only ever holds result #0 of parseRFC3339Timestamp stored under err == nil")
+			continue
+		}
 		okE := false
 		for b, si := range nilEdges(errV, true) {
 			if c.onlyViaEdge(fn, st, b, si) {
